@@ -510,8 +510,9 @@ def explore(ctx, case):
         if first is not None:
             apply_op(first)
         ex = Explorer(snapshot, restore, canon, ops, apply_op, on_state, on_edge, max_depth=max_depth, max_states=MAX_STATES)
+        seen = {}
         try:
-            ex.run()
+            seen = ex.run()
         except StopExploration:
             ex.capped = True
             ctx.count('exploration stopped after 200 violations')
@@ -522,6 +523,9 @@ def explore(ctx, case):
         # within the cap means the state space is not the set model's
         ctx.violation({'where': where, 'clause': 'subsystem state space exceeds the set model (no fixpoint)'},
                       f'{ex.states} states explored, cap {MAX_STATES}')
+    deepest = max(seen.values(), key=len) if seen else ()
+    ctx.sample({'trace (history of real API calls reaching the deepest new state)': [list(map(str, o)) for o in deepest],
+                'where': where, 'states': ex.states, 'transitions': ex.transitions})
     ctx.count('fixpoint reached:' + where if ex.fixpoint else 'depth bound hit:' + where)
     ctx.count('max depth ' + where, ex.depth_reached)
     ctx.outcome('%s states=%d' % (where, ex.states))
